@@ -221,7 +221,7 @@ pub fn run(rep: &mut Report) {
     let (nw, nn) = (weeks.len() as u64, nss.len() as u64);
     sweep(rep, "c20.from_tow", nw * nn * 9, |i, out| j_from_tow(weeks[(i / (nn * 9)) as usize], nss[((i / 9) % nn) as usize], SCALES[(i % 9) as usize], out));
     for ts in SCALES {
-        let mut el: Vec<i128> = lattice::el(ts, if q { 4 } else { 32 }, None);
+        let mut el: Vec<i128> = lattice::el(ts, if q { 16 } else { 256 }, None);
         for w in [0i128, 1, 2, 1024, 2048, 5218, 5219, 170_000] {
             for o in [-1i128, 0, 1, NS_DAY, WEEK - 1] {
                 el.push(w * WEEK + o);
@@ -234,7 +234,7 @@ pub fn run(rep: &mut Report) {
     let cs: Vec<u64> = vec![0, 1, 999_999_999, NS_DAY as u64, WEEK as u64, 1 << 53, NPC as u64 - 1, NPC as u64, NPC as u64 + 1, 1 << 62, 1 << 63, (1 << 63) + 1, 2 * NPC as u64, 5 * NPC as u64 + 7, u64::MAX - 1, u64::MAX];
     sweep(rep, "c20.counter", 4 * cs.len() as u64, |i, out| j_counter((i % 4) as usize, cs[(i / 4) as usize], out));
     for ts in [TimeScale::TAI, TimeScale::UTC, TimeScale::TT, TimeScale::GPST, TimeScale::GST, TimeScale::BDT, TimeScale::QZSST] {
-        let mut el = lattice::el(ts, if q { 4 } else { 32 }, None);
+        let mut el = lattice::el(ts, if q { 16 } else { 256 }, None);
         // both ends of each counter's domain, expressed in this scale
         for g in GN {
             if let Some(z) = scales::zero_tai(g) {
